@@ -4,6 +4,7 @@
 #   demo passes on the clean tree and fails with the change; the repository suite still gives 284 passes;
 #   then runs every registered check against the changed package (FINAM_SRC, /repo itself is untouched)
 #   and prints which checks report a VIOLATION.
+export VERIF_EVIDENCE=${VERIF_EVIDENCE:-/verif/.scratch/evidence_seeded}; mkdir -p $VERIF_EVIDENCE/replays
 ID=$1; V=$2; WT=${SEEDROOT:-/tmp/seed}/$ID; OUT=$WT/out/$V
 LOG=${SEEDLOGS:-/tmp/seedlogs}/$ID$V; mkdir -p $LOG
 cd $WT || exit 2
